@@ -60,8 +60,8 @@ Record InvW (s : st) : Prop := {
   w_arq_reg : t06 (tn s) = false -> forall f w, In (f, w) (arq s) -> exists x, getF f s = Some x /\ f_reg x = true;
   w_freed : freed s = negb (any_live s);
   w_taint : taint_ok (fx s) (tn s);
-  (* a SendFuture that has not completed still holds its item *)
-  w_item : forall f x, getF f s = Some x -> f_recv x = false -> f_done x = false -> f_item x <> None
+  (* a registered SendFuture holds its item *)
+  w_item : forall f x, getF f s = Some x -> f_recv x = false -> f_reg x = true -> f_item x <> None
 }.
 
 Record InvK (s : st) : Prop := {
@@ -839,7 +839,7 @@ Lemma InvW_upd f x x' arq' asq' s :
   (sc s = 0 -> In f (akeys arq') -> is_waiting (f_state x') = false) ->
   (rc s = 0 -> In f (akeys asq') -> is_waiting (f_state x') = false) ->
   (t06 (tn s) = false -> In f (akeys arq') -> f_reg x' = true) ->
-  (f_recv x' = false -> f_done x' = false -> f_item x' <> None) ->
+  (f_recv x' = false -> f_reg x' = true -> f_item x' <> None) ->
   InvW (with_arq arq' (with_asq asq' (setF f x' s))).
 Proof.
   intros HW Hg Er Eh El Hreg Hnd1 Hnd2 Hq1 Hq2 Hk1 Hk2 Hwq Hs0 Hr0 Ht6 Hit.
